@@ -243,11 +243,17 @@ class MergeExact(Monitor):
                     ctx.violation('C09', 'MergeExact', 'law-fold-params',
                                   'merge(a, b, c) != merge(merge(a, b), c) in parameters',
                                   {'inputs': names, 'nary': show(value), 'nested': show(nested)}, rp)
-                elif src_as_sets(value) != src_as_sets(nested):
+                elif src_as_sets(value) != src_as_sets(nested) or _src_multiset(value) != _src_multiset(nested):
+                    # (how often a callable is listed counts too: the n-ary merge IS the left fold)
                     ctx.violation('C09', 'MergeExact', 'law-fold-sources',
                                   'merge(a, b, c) != merge(merge(a, b), c) in provenance',
                                   {'inputs': names, 'nary': sources_view(value),
                                    'nested': sources_view(nested)}, rp)
+
+
+def _src_multiset(sig):
+    src = getattr(sig, 'sources', None) or {}
+    return {k: sorted(id(f) for f in v) for k, v in src.items() if k != '+depths'}
 
 
 def _ret_equal(a, b):
